@@ -70,3 +70,10 @@ Theorem C19_retry_bounds : forall T alive r s last s' is ok, attempt T r s last 
   (ok = false -> Forall (fun j => exists u, nth_error (targets T s) j = Some u /\ alive u = false) is).
 Proof. exact attempt_bounds. Qed.
 Print Assumptions C19_retry_bounds.
+
+(* round-robin: on the next target - every retry goes to the successor (cyclically) of the target that just
+   failed, never to the same one again *)
+Theorem C19_retry_next : forall T alive r s last s' is ok, 2 <= length (targets T s) ->
+  attempt T r s last alive = (s', is, ok) -> steps_ok (length (targets T s)) is.
+Proof. exact attempt_steps. Qed.
+Print Assumptions C19_retry_next.
